@@ -106,6 +106,7 @@ EmitS(t, mode, to, e) ==
     /\ Running /\ b.emits < MaxEmits
     /\ mode = "all" <=> to = None
     /\ Mapped(t) => (e # None /\ st.srv.world[e].used)
+    /\ t = "SMTrig" => st.srv.world["e1"].used        \* its payload entity is slot e1, which must exist by then
     /\ ~Mapped(t) => e = None
     /\ st' = EmitSF(st, [t |-> t, id |-> b.nextId, mode |-> mode, to |-> to, sess |-> 0, e |-> e])
     /\ b' = [b EXCEPT !.emits = @ + 1, !.nextId = @ + 1] /\ UNCHANGED <<g, ge, bad>>
